@@ -3,6 +3,7 @@
   Property theorems only (helper lemmas: FileD/Lemmas/Pool.lean, FileD/Lemmas/PoolStd.lean).
 -/
 import FileD.Lemmas.Pool
+import FileD.Lemmas.PoolStd
 namespace FileD.PropsC05
 open FileD FileD.Pool
 
@@ -21,5 +22,167 @@ theorem lm_held_le_capacity (c : LM.Cfg) (n : Nat) (s : LM.St)
 /-- non-vacuity: capacity 1, two readers; reader 1 is inside the overshoot window, counter = 2 -/
 example : ∃ s, TS.Reachable (LM.step? ⟨1, false⟩) (LM.init 2) s ∧ LM.held s = 1 ∧ s.inUse = 2 :=
   ⟨_, ⟨[.start 0, .inc 0, .start 1, .inc 1], rfl⟩, by decide⟩
+
+theorem set_cases {α} (l : List α) (r0 r : Nat) (new pc pc' : α)
+    (h' : (l.set r0 new)[r]? = some pc') (h : l[r]? = some pc) : (r0 = r ∧ pc' = new) ∨ pc' = pc := by
+  by_cases e : r0 = r
+  · subst e
+    rw [get_set_self l r0 pc new h] at h'
+    exact Or.inl ⟨rfl, (Option.some.inj h').symm⟩
+  · rw [List.getElem?_set_ne e] at h'
+    rw [h] at h'; exact Or.inr (Option.some.inj h').symm
+
+/-- a reader inside `get` -/
+def lmInGet : LM.Pc → Bool
+  | .want | .over | .slow | .wantLock | .locked | .willWait | .parked | .woken | .unlocking | .postUnlock => true
+  | _ => false
+
+theorem lmInGet_wake (pc : LM.Pc) : lmInGet (LM.wake pc) = lmInGet pc := by cases pc <;> rfl
+
+/-- **readers_block_not_drop** (low-memory pool): whatever step any goroutine takes, a reader that is
+    inside `get` is afterwards still inside `get` (blocked or retrying) or has returned with an event —
+    and it returns only through the `Inc` that found the counter below the capacity. -/
+theorem lm_readers_block_not_drop (c : LM.Cfg) (s s' : LM.St) (op : LM.Op) (r : Nat) (pc pc' : LM.Pc)
+    (hs : LM.step? c s op = some s') (hpc : s.pcs[r]? = some pc) (hin : lmInGet pc = true)
+    (hpc' : s'.pcs[r]? = some pc') :
+    lmInGet pc' = true ∨ (pc' = .holding ∧ s.inUse < c.cap) := by
+  have bc : ∀ (t : LM.St), t.pcs = s.pcs → (LM.broadcast t).pcs[r]? = some pc' → lmInGet pc' = true := by
+    intro t ht h
+    simp only [LM.broadcast, List.getElem?_map, ht, hpc] at h
+    simp at h; subst h; rw [lmInGet_wake]; exact hin
+  cases op with
+  | hbRead => simp [LM.step?] at hs; subst hs; rw [hpc] at hpc'; simp at hpc'; subst hpc'; exact Or.inl hin
+  | hbFire =>
+    simp [LM.step?] at hs; subst hs
+    split at hpc'
+    · exact Or.inl (bc s rfl hpc')
+    · rw [hpc] at hpc'; simp at hpc'; subst hpc'; exact Or.inl hin
+  | bBcast r0 =>
+    simp only [LM.step?] at hs; split at hs <;> simp at hs; subst hs; rename_i h0
+    simp only [LM.broadcast, LM.setPc, List.getElem?_map] at hpc'
+    cases hq : (s.pcs.set r0 LM.Pc.idle)[r]? with
+    | none => simp [hq] at hpc'
+    | some pc1 =>
+      simp [hq] at hpc'; subst hpc'
+      rcases set_cases _ _ _ _ _ _ hq hpc with ⟨e, _⟩ | e
+      · subst e; rw [h0] at hpc; simp at hpc; subst hpc; simp [lmInGet] at hin
+      · subst e; rw [lmInGet_wake]; exact Or.inl hin
+  | inc r0 =>
+    simp only [LM.step?] at hs; split at hs
+    · rename_i h0
+      split at hs <;> simp at hs <;> subst hs <;> simp only [LM.setPc] at hpc'
+      · rename_i hc
+        rcases set_cases _ _ _ _ _ _ hpc' hpc with ⟨e, e'⟩ | e
+        · exact Or.inr ⟨e', by omega⟩
+        · subst e; exact Or.inl hin
+      · rcases set_cases _ _ _ _ _ _ hpc' hpc with ⟨e, e'⟩ | e
+        · subst e'; exact Or.inl rfl
+        · subst e; exact Or.inl hin
+    · simp at hs
+  | check r0 =>
+    simp only [LM.step?] at hs; split at hs <;> simp at hs; subst hs
+    simp only [LM.setPc] at hpc'
+    rcases set_cases _ _ _ _ _ _ hpc' hpc with ⟨e, e'⟩ | e
+    · subst e'; split <;> exact Or.inl rfl
+    · subst e; exact Or.inl hin
+  | bDec r0 =>
+    simp only [LM.step?] at hs; split at hs <;> simp at hs; subst hs; rename_i h0
+    simp only [LM.setPc] at hpc'
+    rcases set_cases _ _ _ _ _ _ hpc' hpc with ⟨e, e'⟩ | e
+    · subst e; rw [h0] at hpc; simp at hpc; subst hpc; simp [lmInGet] at hin
+    · subst e; exact Or.inl hin
+  | start r0 =>
+    simp only [LM.step?] at hs; split at hs <;> simp at hs; subst hs
+    simp only [LM.setPc] at hpc'
+    rcases set_cases _ _ _ _ _ _ hpc' hpc with ⟨_, e'⟩ | e
+    · subst e'; exact Or.inl rfl
+    · subst e; exact Or.inl hin
+  | dec r0 | swInc r0 | waitEnq r0 | unlock r0 | swDec r0 =>
+    simp only [LM.step?] at hs; split at hs <;> simp at hs; subst hs
+    simp only [LM.setPc] at hpc'
+    rcases set_cases _ _ _ _ _ _ hpc' hpc with ⟨_, e'⟩ | e
+    · subst e'; exact Or.inl rfl
+    · subst e; exact Or.inl hin
+  | lock r0 | relock r0 =>
+    simp only [LM.step?] at hs; split at hs <;> simp at hs; subst hs
+    simp only [LM.setPc] at hpc'
+    rcases set_cases _ _ _ _ _ _ hpc' hpc with ⟨_, e'⟩ | e
+    · subst e'; exact Or.inl rfl
+    · subst e; exact Or.inl hin
+
+example : lmInGet .parked = true := rfl
+
+/-- **standard pool, capacity**: in every reachable state the events out of the pool
+    (successful gets minus backs begun) are the readers holding one, never more than the capacity;
+    `inUseEvents` counts them plus the returns that have not reached their `Dec` yet. -/
+theorem std_held_le_capacity (cap n : Nat) (s : Std.St)
+    (h : TS.Reachable Std.step? (Std.init cap n) s) :
+    Std.held s ≤ cap ∧ Std.held s = Std.cnt s Std.isHoldS ∧ s.inUse = Std.cnt s Std.inCtr ∧ s.cap = cap := by
+  have inv := Std.inv_reachable cap n s h
+  have hcap : s.cap = cap := by
+    obtain ⟨ops, hr⟩ := h
+    have : ∀ (ops : List Std.Op) (a b : Std.St), TS.run Std.step? a ops = some b → b.cap = a.cap := by
+      intro ops
+      induction ops with
+      | nil => intro a b h; simp [TS.run] at h; subst h; rfl
+      | cons op ops ih =>
+        intro a b h
+        simp only [TS.run] at h
+        cases hso : Std.step? a op with
+        | none => simp [hso] at h
+        | some a1 =>
+          simp [hso] at h
+          rw [ih a1 b h]
+          revert hso
+          cases op <;> simp only [Std.step?] <;> (repeat' split) <;> intro hso <;>
+            simp at hso <;> (try subst hso) <;> rfl
+    exact this ops _ _ hr
+  have h1 : Std.cnt s Std.isHoldS ≤ Std.cnt s Std.isOutish := by
+    apply List.countP_mono_left
+    intro pc _ hp; cases pc <;> simp_all [Std.isHoldS, Std.isOutish]
+  have h2 : s.slots.countP Std.isFF ≤ s.slots.length := List.countP_le_length
+  have h3 := inv.nff; have h4 := inv.len; have h5 := inv.hist
+  refine ⟨?_, ?_, inv.ctr, hcap⟩ <;> simp only [Std.held] <;> omega
+
+example : ∃ s, TS.Reachable Std.step? (Std.init 1 2) s ∧ Std.held s = 1 :=
+  ⟨_, ⟨[.start 0, .tkt 0, .cas 0, .take 0, .iInc 0], rfl⟩, by decide⟩
+
+/-- **slot_exclusive**: the free1/free2 two-phase protocol. In every reachable state every slot is
+    in one of the four states Free / Taken (by exactly the reader recorded as its owner) / Out /
+    Returning (by exactly one reader); two readers never work on the same slot; an event is with
+    exactly one holder or in exactly one slot; a nil event is never taken out of a slot. -/
+theorem slot_exclusive (cap n : Nat) (s : Std.St) (h : TS.Reachable Std.step? (Std.init cap n) s) :
+    (∀ (x : Nat) (sl : Std.Slot), s.slots[x]? = some sl → Std.SlotOK s x sl) ∧
+    (∀ (r r' : Nat) (pc pc' : Std.Pc) (x : Nat), s.pcs[r]? = some pc → s.pcs[r']? = some pc' →
+        Std.slotRef pc = some x → Std.slotRef pc' = some x → r = r') ∧
+    (∀ (r r' : Nat) (pc pc' : Std.Pc) (e : Nat), s.pcs[r]? = some pc → s.pcs[r']? = some pc' →
+        Std.carries pc = some e → Std.carries pc' = some e → r = r') ∧
+    (∀ (r : Nat) (pc : Std.Pc) (e x : Nat) (sl : Std.Slot), s.pcs[r]? = some pc → Std.carries pc = some e → s.slots[x]? = some sl → sl.ev ≠ some e) ∧
+    (∀ (x x' : Nat) (sl sl' : Std.Slot) (e : Nat), s.slots[x]? = some sl → s.slots[x']? = some sl' → sl.ev = some e → sl'.ev = some e → x = x') ∧
+    s.panicked = false := by
+  have inv := Std.inv_reachable cap n s h
+  refine ⟨inv.slot, ?_, ?_, ?_, ?_, inv.np⟩
+  · intro r r' pc pc' x h1 h2 hr hr'
+    obtain ⟨sl, hsl, _, _, ho⟩ := inv.rd r pc x h1 hr
+    obtain ⟨sl', hsl', _, _, ho'⟩ := inv.rd r' pc' x h2 hr'
+    rw [hsl] at hsl'; simp at hsl'; subst hsl'
+    rw [ho] at ho'; simpa using ho'
+  · intro r r' pc pc' e h1 h2 hc hc'
+    have a := inv.e2 r pc e h1 hc
+    have b := inv.e2 r' pc' e h2 hc'
+    rw [a] at b; simpa using b
+  · intro r pc e x sl h1 hc hsl he
+    have a := inv.e2 r pc e h1 hc
+    have b := inv.e1 x sl e hsl he
+    rw [a] at b; simp at b
+  · intro x x' sl sl' e h1 h2 he he'
+    have a := inv.e1 x sl e h1 he
+    have b := inv.e1 x' sl' e h2 he'
+    rw [a] at b; simpa using b
+
+/-- non-vacuity: capacity 2; reader 0 holds event 0, reader 1 is between CAS and Store on slot 1 -/
+example : ∃ s, TS.Reachable Std.step? (Std.init 2 2) s ∧
+    s.pcs = [.holding 0, .taken 1] ∧ (s.slots.map (fun sl => (sl.f1, sl.f2))) = [(false, false), (false, true)] :=
+  ⟨_, ⟨[.start 0, .tkt 0, .cas 0, .take 0, .iInc 0, .start 1, .tkt 1, .cas 1], rfl⟩, by decide⟩
 
 end FileD.PropsC05
